@@ -31,6 +31,7 @@ func runC16(c *Ctx) {
 	rootLookup(c)
 	purlTypeLookup(c)
 	runC16rest(c)
+	purlFallbackOnlyWithoutHashMatches(c)
 	// "precisely the nodes satisfying the criterion" and "does not depend on the order of nodes":
 	// the loops of the lookup and matching functions skip an element only for the criterion itself
 	const RL = "loop-totality"
@@ -191,8 +192,47 @@ func identifierLookup(c *Ctx) {
 	if d == nil {
 		return
 	}
-	// append only under `…Identifiers[int32(idType)] == v` where idType comes from the type parameter t
-	okCmp, okType := false, false
+	// the two string parameters: identifier type and value (by position, not by name)
+	var pType, pVal types.Object
+	k := 0
+	for _, fl := range d.fd.Type.Params.List {
+		for _, nm := range fl.Names {
+			switch k {
+			case 0:
+				pType = d.pkg.TypesInfo.Defs[nm]
+			case 1:
+				pVal = d.pkg.TypesInfo.Defs[nm]
+			}
+			k++
+		}
+	}
+	// the local holding the resolved identifier type: x := SoftwareIdentifierTypeFromString(<type parameter>)
+	var idObj types.Object
+	fromParam := false
+	ast.Inspect(d.fd.Body, func(n ast.Node) bool {
+		as, ok := n.(*ast.AssignStmt)
+		if !ok || len(as.Lhs) != 1 || len(as.Rhs) != 1 {
+			return true
+		}
+		if ce, isCall := as.Rhs[0].(*ast.CallExpr); isCall && calleeBase(d, ce, "") == "SoftwareIdentifierTypeFromString" && len(ce.Args) == 1 && objOf(d.pkg, ce.Args[0]) == pType && pType != nil {
+			idObj = objOf(d.pkg, as.Lhs[0])
+			fromParam = true
+		}
+		return true
+	})
+	mentions := func(e ast.Expr, o types.Object) bool {
+		f := false
+		ast.Inspect(e, func(m ast.Node) bool {
+			if id, ok := m.(*ast.Ident); ok && objOf(d.pkg, id) == o && o != nil {
+				f = true
+			}
+			return !f
+		})
+		return f
+	}
+	// append only under `…Identifiers[<resolved type>] == <value parameter>`, and only for an entry
+	// that is present: a missing key reads as "" and would match an empty value
+	okCmp, okType, okPresent := false, false, false
 	ast.Inspect(d.fd.Body, func(n ast.Node) bool {
 		as, ok := n.(*ast.AssignStmt)
 		if !ok || len(as.Rhs) != 1 {
@@ -211,32 +251,51 @@ func identifierLookup(c *Ctx) {
 			if !isIf || i+1 >= len(chain) || chain[i+1] != ast.Node(ifs.Body) {
 				continue
 			}
-			ast.Inspect(ifs.Cond, func(m ast.Node) bool {
-				be, ok := m.(*ast.BinaryExpr)
-				if !ok || be.Op != token.EQL {
-					return true
+			// the value compared may be the map entry itself or a local bound to it by a comma-ok lookup
+			var okVar, valVar types.Object
+			var lookup *ast.IndexExpr
+			if ini, isAs := ifs.Init.(*ast.AssignStmt); isAs && len(ini.Lhs) == 2 && len(ini.Rhs) == 1 {
+				if ix, isIx := ini.Rhs[0].(*ast.IndexExpr); isIx {
+					lookup, valVar, okVar = ix, objOf(d.pkg, ini.Lhs[0]), objOf(d.pkg, ini.Lhs[1])
 				}
-				l, r := types.ExprString(be.X), types.ExprString(be.Y)
-				if strings.Contains(l, ".Identifiers[") && (r == "v") {
-					okCmp = true
-					if strings.Contains(l, "idType") {
-						okType = true
+			}
+			isEntry := func(e ast.Expr) (bool, bool) { // (is the Identifiers entry, keyed by the resolved type)
+				if ix, isIx := e.(*ast.IndexExpr); isIx && strings.HasSuffix(normText(types.ExprString(ix.X)), ".Identifiers") {
+					return true, mentions(ix.Index, idObj)
+				}
+				if id, isId := e.(*ast.Ident); isId && valVar != nil && objOf(d.pkg, id) == valVar && lookup != nil && strings.HasSuffix(normText(types.ExprString(lookup.X)), ".Identifiers") {
+					return true, mentions(lookup.Index, idObj)
+				}
+				return false, false
+			}
+			for _, cj := range conjuncts(ifs.Cond) {
+				if id, isId := cj.(*ast.Ident); isId && okVar != nil && objOf(d.pkg, id) == okVar {
+					okPresent = true
+				}
+				be, isBe := cj.(*ast.BinaryExpr)
+				if !isBe {
+					continue
+				}
+				if be.Op == token.EQL {
+					for _, pair := range [][2]ast.Expr{{be.X, be.Y}, {be.Y, be.X}} {
+						if ent, keyed := isEntry(pair[0]); ent && objOf(d.pkg, pair[1]) == pVal && pVal != nil {
+							okCmp = true
+							okType = okType || keyed
+						}
 					}
 				}
-				return true
-			})
+				// `v != ""` rules the empty value out as well
+				if subj, empty, okE := emptinessTest(c, be); okE && !empty && pVal != nil && subj == pVal.Name() {
+					okPresent = true
+				}
+			}
 		}
 		return true
 	})
-	// idType := SoftwareIdentifierTypeFromString(t)
-	fromParam := false
-	for _, cs := range callsIn(d.pkg, d.fd.Body) {
-		if cs.callee.Name() == "SoftwareIdentifierTypeFromString" && len(cs.call.Args) == 1 && types.ExprString(cs.call.Args[0]) == "t" {
-			fromParam = true
-		}
-	}
 	c.check(okCmp && okType && fromParam, R, fname+"#Identifiers", c.P.Pos(d.fd.Pos()), "element yielded only when Identifiers[type(t)] == v",
-		fmt.Sprintf("GetNodesByIdentifier does not yield exactly under `Identifiers[int32(idType)] == v` with idType resolved from t (comparison %v, keyed by idType %v, idType from t %v)", okCmp, okType, fromParam))
+		fmt.Sprintf("GetNodesByIdentifier does not yield exactly under `Identifiers[<resolved type>] == <value>` with the type resolved from the type parameter (comparison %v, keyed by the resolved type %v, resolved from the parameter %v)", okCmp, okType, fromParam))
+	c.check(okPresent, R, fname+"#present", c.P.Pos(d.fd.Pos()), "only an entry that is present can match",
+		"the identifier comparison is not conjoined with a presence test (comma-ok) of the entry: a node without an identifier of the requested type reads as \"\" and matches a lookup for the empty value")
 }
 
 func rootLookup(c *Ctx) {
@@ -586,15 +645,20 @@ func purlAccessor(c *Ctx) {
 // the body of `if … len(coll) == 1 …` (a conjunct), in `case 1:` of `switch len(coll)`, or in a
 // `case len(coll) == 1:` of a tagless switch.
 func underLenOne(d *declInfo, chain []ast.Node, coll string) bool {
+	return underLenK(d, chain, coll, 1)
+}
+
+// underLenK: as underLenOne for an arbitrary constant length k.
+func underLenK(d *declInfo, chain []ast.Node, coll string, k int64) bool {
 	want := normText("len(" + coll + ")")
 	isLenOne := func(e ast.Expr) bool {
 		for _, cj := range conjuncts(e) {
 			if be, ok := cj.(*ast.BinaryExpr); ok && be.Op == token.EQL {
 				x, y := be.X, be.Y
-				if v, isC := constOf(d.pkg, x); isC && v.isInt() && v.int() == 1 {
+				if v, isC := constOf(d.pkg, x); isC && v.isInt() && v.int() == k {
 					x, y = y, x
 				}
-				if v, isC := constOf(d.pkg, y); isC && v.isInt() && v.int() == 1 && normText(types.ExprString(x)) == want {
+				if v, isC := constOf(d.pkg, y); isC && v.isInt() && v.int() == k && normText(types.ExprString(x)) == want {
 					return true
 				}
 			}
@@ -621,7 +685,7 @@ func underLenOne(d *declInfo, chain []ast.Node, coll string) bool {
 						return true
 					}
 				} else if normText(types.ExprString(sw.Tag)) == want {
-					if v, isC := constOf(d.pkg, s.List[0]); isC && v.isInt() && v.int() == 1 {
+					if v, isC := constOf(d.pkg, s.List[0]); isC && v.isInt() && v.int() == k {
 						return true
 					}
 				}
@@ -722,4 +786,139 @@ func keyShape(d *declInfo, defs map[types.Object]ast.Expr, e ast.Expr, depth int
 		return "<?>"
 	}
 	return classOf(e)
+}
+
+// purlFallbackOnlyWithoutHashMatches: C16 matching rule — "the package URL breaking ties among
+// several hash matches": a node taken from the list-wide purl index may be returned only when no
+// node matched by hash; with hash matches the candidates come from those matches.
+func purlFallbackOnlyWithoutHashMatches(c *Ctx) {
+	const R = "match-candidates"
+	fname := "sbom.(*NodeList).GetMatchingNode"
+	c.rule(R, "in GetMatchingNode a returned node that derives from the list-wide purl index (indexNodesByPurl) is returned only under len(<hash matches>) == 0; every other returned node derives from the hash matches")
+	d := c.decl(R, fname)
+	if d == nil {
+		return
+	}
+	// the hash-match collection: the map whose store is guarded by HashesMatch
+	var found types.Object
+	ast.Inspect(d.fd.Body, func(n ast.Node) bool {
+		ifs, ok := n.(*ast.IfStmt)
+		if !ok {
+			return true
+		}
+		guarded := false
+		for _, cs := range callsIn(d.pkg, ifs.Cond) {
+			if strings.HasSuffix(objName(cs.callee), ".HashesMatch") {
+				guarded = true
+			}
+		}
+		if !guarded {
+			return true
+		}
+		for _, st := range ifs.Body.List {
+			if as, isAs := st.(*ast.AssignStmt); isAs && len(as.Lhs) == 1 {
+				if ix, isIx := as.Lhs[0].(*ast.IndexExpr); isIx {
+					found = baseObj(d, ix.X)
+				}
+			}
+		}
+		return true
+	})
+	if found == nil {
+		c.undecided(R, fname+"#hash-matches", c.P.Pos(d.fd.Pos()), "the collection of hash matches (a map filled under HashesMatch) was not found")
+		return
+	}
+	// provenance of a returned expression: "hash" / "purl" / "" by local data flow
+	var prov func(e ast.Expr, depth int) string
+	prov = func(e ast.Expr, depth int) string {
+		if depth > 6 {
+			return ""
+		}
+		switch x := e.(type) {
+		case *ast.ParenExpr:
+			return prov(x.X, depth+1)
+		case *ast.IndexExpr:
+			return prov(x.X, depth+1)
+		case *ast.CallExpr:
+			if calleeBase(d, x, "") == "indexNodesByPurl" {
+				return "purl"
+			}
+			return ""
+		case *ast.Ident:
+			o := objOf(d.pkg, x)
+			if o == nil {
+				return ""
+			}
+			if o == found {
+				return "hash"
+			}
+			res := ""
+			merge := func(p string) {
+				if p == "" {
+					return
+				}
+				if res == "" || res == p {
+					res = p
+				} else {
+					res = "mixed"
+				}
+			}
+			ast.Inspect(d.fd.Body, func(n ast.Node) bool {
+				switch s := n.(type) {
+				case *ast.RangeStmt:
+					if (s.Key != nil && objOf(d.pkg, s.Key) == o) || (s.Value != nil && objOf(d.pkg, s.Value) == o) {
+						merge(prov(s.X, depth+1))
+					}
+				case *ast.AssignStmt:
+					for i, l := range s.Lhs {
+						if objOf(d.pkg, l) != o {
+							continue
+						}
+						var r ast.Expr
+						if len(s.Rhs) == len(s.Lhs) {
+							r = s.Rhs[i]
+						} else if len(s.Rhs) == 1 {
+							r = s.Rhs[0]
+						}
+						if ce, isCall := r.(*ast.CallExpr); isCall {
+							if id, isId := ce.Fun.(*ast.Ident); isId && id.Name == "append" {
+								for _, a := range ce.Args[1:] {
+									merge(prov(a, depth+1))
+								}
+								continue
+							}
+						}
+						if r != nil {
+							merge(prov(r, depth+1))
+						}
+					}
+				}
+				return true
+			})
+			return res
+		}
+		return ""
+	}
+	n := 0
+	ast.Inspect(d.fd.Body, func(m ast.Node) bool {
+		rs, ok := m.(*ast.ReturnStmt)
+		if !ok || len(rs.Results) != 2 || isNilIdent(d.pkg, rs.Results[0]) {
+			return true
+		}
+		n++
+		construct := fmt.Sprintf("%s#return@%d", fname, n)
+		p := prov(rs.Results[0], 0)
+		chain := enclosing(d.fd.Body, rs)
+		switch p {
+		case "hash":
+			c.ok(R, construct, c.P.Pos(rs.Pos()), "the returned node is one of the hash matches")
+		case "purl":
+			c.check(underLenK(d, chain, found.Name(), 0), R, construct, c.P.Pos(rs.Pos()), "the purl index decides only when nothing matched by hash",
+				"a node from the list-wide purl index is returned although hash matches exist: the tie-break must choose among the hash matches, not among all nodes with that purl")
+		default:
+			c.bad(R, construct, c.P.Pos(rs.Pos()), fmt.Sprintf("the returned node %s derives from neither the hash matches nor (under len == 0) the purl index", types.ExprString(rs.Results[0])))
+		}
+		return true
+	})
+	c.floor(R, 3, "single hash match, purl fallback, purl tie-break")
 }
